@@ -233,6 +233,17 @@ func writeReplay(o *Options, c *Check, plan *Plan, v Violation, orig int) (strin
 	return path, os.WriteFile(path, b, 0o644)
 }
 
+// writeReplayRaw writes the replay file of an unminimised plan from the run that showed the
+// violation, without executing anything again.
+func writeReplayRaw(o *Options, c *Check, plan *Plan, v Violation, r *Run) (string, error) {
+	rf := &ReplayFile{Property: v.Property, Violation: v, Plan: plan, TraceHash: r.TraceHash(), LogTail: r.Tail(), OrigSteps: len(plan.Steps),
+		Note: "replay: ./check " + c.ID + " replay <this file> (not minimised: the worker process did not survive minimisation)"}
+	os.MkdirAll(replayDir(o), 0o755)
+	path := filepath.Join(replayDir(o), fmt.Sprintf("%s-%d-%s-unminimised.json", c.ID, plan.Seed, sanitize(v.Key)))
+	b, _ := json.MarshalIndent(rf, "", " ")
+	return path, os.WriteFile(path, b, 0o644)
+}
+
 func sanitize(s string) string {
 	var b strings.Builder
 	for _, r := range s {
@@ -321,6 +332,13 @@ func RunWorker(o *Options) int {
 				continue
 			}
 			seenKeys[v.Key] = true
+			// Record the find before minimising: minimisation re-executes damaged code many times
+			// and the process may not survive it (fatal out-of-memory, stack overflow). The parent
+			// falls back to these lines when the worker dies.
+			if p0, err := writeReplayRaw(o, c, plan, v, run); err == nil {
+				fb, _ := json.Marshal(foundViolation{V: v, ReplayPath: p0, OrigSteps: len(plan.Steps), MinSteps: len(plan.Steps), RunIndex: i, WorkerFrom: o.From})
+				fmt.Printf("POLYSIM-FOUND %s\n", fb)
+			}
 			min := plan
 			if !c.NoMinimise && !knownKeys[v.Key] {
 				min = minimise(c, plan, v, 150)
@@ -372,6 +390,10 @@ func RunReplay(o *Options) int {
 	attempts := c.ReplayAttempts
 	if attempts < 1 {
 		attempts = 1
+	}
+	ReplayTarget = &rf.Violation
+	if len(rf.Prelude) > 0 || c.ReplayAttempts > 1 {
+		ReplayTarget = nil // these replays need several executions in one process
 	}
 	if rf.Violation.Key == "run-does-not-terminate" {
 		done := make(chan struct{})
@@ -481,6 +503,7 @@ func RunParent(o *Options) int {
 	// phase runs the given index ranges in worker processes and merges their results; it
 	// returns the ranges the workers did not get to before the wall cap.
 	var crashed [][2]int
+	var foundBeforeCrash []foundViolation
 	var hung []int
 	hungWorkers := 0
 	phase := func(ranges [][2]int) (rest [][2]int, startErr bool) {
@@ -539,6 +562,17 @@ func RunParent(o *Options) int {
 				}
 			}
 			if err != nil || r == nil {
+				// violations the worker had found before it died
+				sc2 := bufio.NewScanner(bytes.NewReader(j.out.Bytes()))
+				sc2.Buffer(make([]byte, 1<<20), 1<<28)
+				for sc2.Scan() {
+					if ln := sc2.Text(); strings.HasPrefix(ln, "POLYSIM-FOUND ") {
+						var fv foundViolation
+						if json.Unmarshal([]byte(ln[len("POLYSIM-FOUND "):]), &fv) == nil {
+							foundBeforeCrash = append(foundBeforeCrash, fv)
+						}
+					}
+				}
 				// keep the whole stderr of a crashed worker for diagnosis
 				os.MkdirAll(filepath.Join(o.VerifDir, ".work"), 0o755)
 				logf := filepath.Join(o.VerifDir, ".work", fmt.Sprintf("worker-crash-%s-%d-%d.log", c.ID, ranges[ji][0], time.Now().UnixNano()))
@@ -616,7 +650,14 @@ func RunParent(o *Options) int {
 			rest = append(rest, r2...)
 		}
 		if len(crashed) > 0 {
-			trouble = true
+			if len(foundBeforeCrash) > 0 {
+				// the worker dies deterministically, but only after it had found a violation: report that
+				fmt.Printf("polysim: a worker died again after finding %d violation(s); reporting those (not minimised)\n", len(foundBeforeCrash))
+				total.Violations = append(total.Violations, foundBeforeCrash...)
+				crashed = nil
+			} else {
+				trouble = true
+			}
 		}
 	}
 	missing := func() string {
